@@ -28,7 +28,14 @@ import (
 // the delta-accumulated set must equal what a fresh ztunnel gets from a cold-started control plane on the final objects
 // (C01 for ztunnel types, C03's "no SotW form" clause, C05's initial_resource_versions clause).
 
-func init() { register("c01z", "C01", runC01z) }
+func init() {
+	register("c01z", "C01", func(t *testing.T, r *engine.Run) { runZtunnel(t, r, false) })
+	// c05z: the same world driven for C05's ztunnel clause. The mix is biased to cuts and reconnects, and every run ends
+	// with: cut, 0-3 cluster steps that the ztunnel misses (often deletions only), reconnect presenting what it
+	// retained (initial_resource_versions), quiescence, comparison with a fresh ztunnel on a cold-started control
+	// plane. Nothing happens after the last reconnect, so no later push can repair a wrong reconnect response.
+	register("c05z", "C05", func(t *testing.T, r *engine.Run) { runZtunnel(t, r, true) })
+}
 
 func ztunnelClient(name string) *xdsClient {
 	m := &model.NodeMetadata{Namespace: "istio-system", NodeName: "n1", ClusterID: "Kubernetes", IstioVersion: "1.30.0"}
@@ -38,8 +45,16 @@ func ztunnelClient(name string) *xdsClient {
 	return c
 }
 
-func runC01z(t *testing.T, r *engine.Run) {
+func runZtunnel(t *testing.T, r *engine.Run, reconnectMode bool) {
 	tp := r.T
+	failClass := "c01z.ztunnel_differs_from_cold_start"
+	cutBelow := 8 // of 10: actions 7 is cut/reconnect
+	stepBelow := 6
+	if reconnectMode {
+		failClass = "c05z.ztunnel_not_resynchronised"
+		stepBelow = 4
+	}
+	_ = cutBelow
 	bubbleInit()
 	prevA := features.EnableAmbient
 	features.EnableAmbient = true
@@ -73,30 +88,40 @@ func runC01z(t *testing.T, r *engine.Run) {
 	nsteps := 6 + tp.Choose(30, "zsteps")
 	away := false
 	meshV := 0
+	clusterStep := func() {
+		for ty := range k.q {
+			k.q[ty] = nil
+		}
+		k.step()
+		onlyDeletes := true
+		for _, ty := range []string{"svc", "pod", "slice"} {
+			for _, ev := range k.q[ty] {
+				if err := applyK8s(inst, k.ns, ev); err != nil {
+					r.Logf("apply %s failed: %v", ev.desc, err)
+				} else {
+					r.Logf("%s", ev.desc)
+				}
+				if ev.verb != "delete" {
+					onlyDeletes = false
+				}
+				tp.Note(ty + ":" + ev.verb)
+			}
+		}
+		synctest.Wait()
+		if away {
+			r.Probe("change_while_ztunnel_disconnected")
+			if onlyDeletes {
+				r.Probe("deletion_only_step_while_disconnected")
+			}
+			r.NonTriv = true
+		}
+	}
 	for i := 0; i < nsteps && !r.Failed(); i++ {
 		r.Steps++
 		switch a := tp.Choose(10, "zact"); {
-		case a < 6: // one cluster step, its events applied in causal order
-			for ty := range k.q {
-				k.q[ty] = nil
-			}
-			k.step()
-			for _, ty := range []string{"svc", "pod", "slice"} {
-				for _, ev := range k.q[ty] {
-					if err := applyK8s(inst, k.ns, ev); err != nil {
-						r.Logf("apply %s failed: %v", ev.desc, err)
-					} else {
-						r.Logf("%s", ev.desc)
-					}
-					tp.Note(ty + ":" + ev.verb)
-				}
-			}
-			synctest.Wait()
-			if away {
-				r.Probe("change_while_ztunnel_disconnected")
-				r.NonTriv = true
-			}
-		case a < 7: // AuthorizationPolicy create / update / delete through the API server
+		case a < stepBelow: // one cluster step, its events applied in causal order
+			clusterStep()
+		case a < stepBelow+1: // AuthorizationPolicy create / update / delete through the API server
 			name := []string{"ap1", "ap2"}[tp.Choose(2, "apname")]
 			api := inst.fds.KubeClient().Istio().SecurityV1().AuthorizationPolicies("a")
 			if p, ok := policies[name]; ok && tp.Bool(1, 2, "apdel") {
@@ -121,7 +146,7 @@ func runC01z(t *testing.T, r *engine.Run) {
 				r.Logf("apply AuthorizationPolicy %s action=%v selector=%v", name, p.Spec.Action, p.Spec.Selector)
 			}
 			synctest.Wait()
-		case a < 8: // transport fault / reconnect with retained state
+		case a < 8 || (reconnectMode && a < 9 && tp.Bool(1, 2, "morecuts")): // transport fault / reconnect with retained state
 			if c.connected {
 				r.Fault("stream_cut")
 				r.Logf("ztunnel stream cut (parked send=%v)", w.hasParkedSend(c))
@@ -149,6 +174,33 @@ func runC01z(t *testing.T, r *engine.Run) {
 		}
 		w.deliverSome(tp, tp.Choose(5, "ndeliver"))
 		w.reapStream(c)
+	}
+	if reconnectMode && !r.Failed() {
+		// the closing act: whatever state the stream is in (responses parked, requests queued), it is cut, the cluster
+		// moves on without the ztunnel, and the ztunnel comes back with what it retained
+		if c.connected {
+			if w.quiesceBeforeLastCut(tp, inst) {
+				r.Probe("last_cut_at_quiet_point")
+			}
+			r.Fault("stream_cut")
+			r.Logf("ztunnel stream cut (parked send=%v)", w.hasParkedSend(c))
+			w.cut(c)
+			w.reapStream(c)
+			away = true
+		}
+		for n := tp.Choose(4, "missed"); n > 0; n-- {
+			clusterStep()
+		}
+		w.gap(tp, db)
+		c.presentNonce = tp.Bool(1, 3, "presentNonce")
+		held := 0
+		for _, s := range c.sub {
+			held += len(s.held)
+		}
+		r.Logf("ztunnel reconnects presenting %d initial_resource_versions (old nonce presented=%v)", held, c.presentNonce)
+		r.Fault("client_reconnect")
+		w.connect(c, inst, false)
+		away = false
 	}
 	if !c.connected {
 		r.Fault("client_reconnect")
@@ -217,8 +269,17 @@ func runC01z(t *testing.T, r *engine.Run) {
 			e := c.recvLog[i]
 			r.Logf("  recv[%d] %s names=%v removed=%v", i, shortType(e.typeURL), e.names, e.removed)
 		}
-		r.Fail("c01z.ztunnel_differs_from_cold_start", d[0].typ+":"+d[0].kind, "ztunnel (%d streams) differs from a fresh ztunnel on a cold-started control plane:%s", c.streams, fmtDiffs(d))
+		r.Fail(failClass, d[0].typ+":"+d[0].kind, "ztunnel (%d streams) differs from a fresh ztunnel on a cold-started control plane:%s", c.streams, fmtDiffs(d))
 		return
 	}
 	w.cut(c)
+}
+
+// quiesceBeforeLastCut lets, in half of the runs, the ztunnel catch up completely before the last cut, so that the
+// versions it presents afterwards are the current ones and the only thing it missed is what happens while it is away.
+func (w *wis) quiesceBeforeLastCut(tp *engine.Tape, inst *wisInstance) bool {
+	if !tp.Bool(1, 2, "catchUpBeforeCut") {
+		return false
+	}
+	return w.quiesce(inst, w.clients)
 }
